@@ -755,7 +755,25 @@ ASSUMPTIONS: list[str] = [
 ]
 
 
+def tree_fingerprint() -> str:
+	"""Fingerprint of the tranp tree under test: the in-process sessions and the fresh subprocesses must see the same code."""
+	import hashlib
+	h = hashlib.sha1()
+	for sub in ('rogw', 'data'):
+		for root, dirs, files in os.walk(os.path.join(common.REPO, sub)):
+			dirs.sort()
+			for fn in sorted(files):
+				if fn.endswith(('.py', '.lark', '.j2', '.yml')):
+					st = os.stat(os.path.join(root, fn))
+					h.update(f'{root}/{fn}:{st.st_size}:{st.st_mtime_ns};'.encode())
+	return h.hexdigest()
+
+
 def run(ctx: Ctx) -> int:
+	return run_checked(ctx, tree_fingerprint())
+
+
+def run_checked(ctx: Ctx, before: str) -> int:
 	proof = common.prove(ctx, PROP, leanchecker=ctx.thorough)
 	try:
 		prelude(ctx)
@@ -780,6 +798,8 @@ def run(ctx: Ctx) -> int:
 			search_interactive(ctx),
 			search_runner(ctx),
 		]
+	if tree_fingerprint() != before:
+		raise common.InfraError(f'{common.REPO} changed while the check was running: session and fresh-process results are not comparable, run again')
 	return common.finish(ctx, proof, streams, searches, statements=STATEMENTS, partial=PARTIAL, assumptions=ASSUMPTIONS,
 		trusted=['the fresh-process oracle forks before any tranp object exists; module import itself is assumed to create no session state'])
 
